@@ -1074,3 +1074,5 @@ package twig
 //@   loop 9 invariant[C09] loopMapFresh() && has(ownLoopMap(), "length") && isInt(ownLoopMap()["length"], length)
 //@   atcall[C09] Node.Render#3 a2 == ctx
 //@   atcall[C09] Node.Render#5 a2 == ctx
+//@ func sameValue props: C05
+//@   pure
